@@ -174,6 +174,17 @@ func Ev(ctx context.Context, kind string, args ...any) {
 	}
 }
 
+// Pause only perturbs the schedule (a seeded random delay): it widens the window
+// between two adjacent statements of the executor without logging anything.
+func Pause(ctx context.Context) {
+	a, _ := ctx.Value(actKey{}).(*activation)
+	if a == nil || a.epoch != atomic.LoadInt64(&epoch) {
+		return
+	}
+	perturb()
+	perturb()
+}
+
 // ErrClass maps an error to the classes the executor and main distinguish.
 func ErrClass(err error) string {
 	if err == nil {
